@@ -745,7 +745,7 @@ Definition endpoint_kind (e : endpoint) : qkind :=
   end.
 Definition wf_question (q : question) : bool :=
   match q, endpoint_kind (q_endpoint q) with
-  | QSession _ _, KSession | QGroups _ _ _, KGroups | QToken _ _, KToken => true
+  | QSession _ _ _, KSession | QGroups _ _ _, KGroups | QToken _ _, KToken => true
   | _, _ => false
   end.
 
@@ -772,7 +772,7 @@ Theorem keys_injective q1 q2 :
 Proof.
   intros W1 W2 G1 G2 H. apply wrapper_key_split in H as [Hn Hk].
   pose proof (endpoint_name_kind _ _ Hn) as Hkind.
-  destruct q1 as [e1 s1|e1 m1 g1|e1 t1], q2 as [e2 s2|e2 m2 g2|e2 t2];
+  destruct q1 as [e1 s1 a1|e1 m1 g1|e1 t1], q2 as [e2 s2 a2|e2 m2 g2|e2 t2];
     unfold wf_question in W1, W2; cbn [q_endpoint] in *;
     destruct (endpoint_kind e1), (endpoint_kind e2); try discriminate; cbn [subject_of sub_key guard] in *.
   - rewrite Hn, Hk. reflexivity.
@@ -1041,7 +1041,7 @@ Definition rtok : str := [114].      (* "r" *)
 Definition w_session : session := mkSession tokA rtok 100%Z 200%Z 100000%Z 50%Z [[bA]] [bA; 64; bB].
 Definition w_update : update := mkUpdate (Some tokB) (Some 3700%Z) None (Some [[bA]; [bB]]) (Some 0%Z).
 Definition w_trace (e : endpoint) : list wevent :=
-  [WEnter 1%nat (QSession e w_session); WEnter 2%nat (QSession e w_session);
+  [WEnter 1%nat (QSession e w_session []); WEnter 2%nat (QSession e w_session []);
    WFnReturn 1%nat (VBool true, 0) w_update; WWake 2%nat; WCleanup 1%nat].
 
 Definition same_updates_claim : Prop :=
@@ -1067,7 +1067,7 @@ Qed.
 Theorem follower_session_refuted : ~ same_updates_claim.
 Proof.
   intros C. destruct (follower_session_refuted_at PRefresh eq_refl) as [w [Hr [H1 [H2 [H3 [H4 H5]]]]]].
-  specialize (C (w_trace PRefresh) w 2%nat 1%nat (QSession PRefresh w_session) (QSession PRefresh w_session)
+  specialize (C (w_trace PRefresh) w 2%nat 1%nat (QSession PRefresh w_session []) (QSession PRefresh w_session [])
                 w_session (VBool true, 0) 0%nat w_update Hr).
   rewrite H3, H4 in C. apply H5. symmetry.
   assert (Some w_session = Some (apply_update w_update w_session)) as E.
